@@ -264,6 +264,53 @@ def loop_worker(job):
     return st
 
 
+def drain_worker(job):
+    """find -print0 | xargs -0 -I{} CMD {} where CMD reads its standard input to the end (the recorder in 'drain' mode, standing for ssh,
+    ffmpeg, cat ...): the paths still waiting in the pipe are xargs' input, not the command's - every path is delivered once."""
+    k, nruns, seed = job
+    st = Stats()
+    rng = common.rng_for(seed, "C07drain", k)
+    base = common.mkscratch("C07d%d" % k)
+    try:
+        for t in range(nruns):
+            sb = os.path.join(base, "t%d" % t)
+            os.makedirs(os.path.join(sb, "r"))
+            names = set()
+            while len(names) < 350:
+                names.add("".join(rng.choice(["a", "b", " ", "'", "x", "{}", "é", "-", "q"]) for _ in range(rng.randint(30, 90))).strip() or "z")
+            for n_ in names:
+                open(os.path.join(sb, "r", n_), "w").close()
+            exp = [b"r"] + [("r/" + n_).encode() for n_ in sorted(names, key=lambda x: x.encode())]
+            log = os.path.join(sb, "rec.log")
+            opt = rng.choice([["-I", "{}"], ["-i"], ["--replace={}"], ["-n", "1"], ["-L", "1"]])
+            tmpl = ["{}"] if opt[0] in ("-I", "-i") or opt[0].startswith("--replace") else []
+            p1 = subprocess.Popen([common.FIND, "r", "-sorted", "-print0"], cwd=sb, env=common.clean_env(), stdout=subprocess.PIPE, stderr=subprocess.PIPE)
+            p2 = subprocess.Popen([common.XARGS, "-0"] + opt + [common.REC, "--"] + tmpl, cwd=sb,
+                                  env=common.clean_env({"VERIF_REC_LOG": log, "VERIF_REC_DRAIN": "1"}), stdin=p1.stdout, stdout=subprocess.PIPE,
+                                  stderr=subprocess.PIPE)
+            p1.stdout.close()
+            rp = {"tree": "lib/c07.py drain_worker seed=%r k=%d t=%d" % (seed, k, t), "xargs_options": opt}
+            try:
+                o2, e2 = p2.communicate(timeout=300)
+                p1.wait(timeout=60)
+            except subprocess.TimeoutExpired:
+                p1.kill()
+                p2.kill()
+                st.violate("hang", None, {"root": "r", "xargs_options": opt}, rp)
+                continue
+            got = [a for _, argv in xref.read_reclog(log) for a in argv[1:]]
+            st.inc("evaluations")
+            st.inc("pipelines_whose_command_reads_its_standard_input")
+            st.add("distinct", (tuple(opt), len(exp)))
+            if got != exp or p2.returncode != 0:
+                st.violate("pipe-not-exact", None, {"root": "r", "xargs_options": opt, "paths": len(exp), "delivered": len(got), "xargs_exit": p2.returncode,
+                                                    "stderr": (e2 or b"")[-200:], "note": "the command consumes its standard input"}, rp)
+            common.force_rmtree(sb)
+    finally:
+        common.force_rmtree(base)
+    return st
+
+
 def worker(job):
     k, ntrees, seed = job
     st = Stats()
@@ -403,6 +450,8 @@ def run(ctx):
     ctx.require("very_long_path_runs", 4)
     ctx.pmap(loop_worker, [(k, ctx.scale(4, 120), ctx.seed) for k in range(nw)])
     ctx.require("pipelines_over_a_link_cycle", 20)
+    ctx.pmap(drain_worker, [(k, ctx.scale(1, 6), ctx.seed) for k in range(nw)])
+    ctx.require("pipelines_whose_command_reads_its_standard_input", 8)
     ctx.pmap(many_worker, [(k, ctx.scale(1, 8), ctx.seed) for k in range(nw)])
     ctx.require("pipelines_split_at_the_system_limit", 4)
     for c in ("names_with:newline", "names_with:leading-dash", "names_with:quote", "names_with:backslash", "names_with:only-blanks",
